@@ -543,6 +543,19 @@ C08_Covers == IsQueuePreempt =>
           \/ FitIn(Pre.nodes[n].avail, a[3].res)
           \* free space below zero (an externally forced over-commit) counts as no free space
           \/ \A t \in DOMAIN a[3].res : a[3].res[t] <= Pos(Get(Pre.nodes[n].avail, t)) + Get(freed, t))
+\* Quota-change preemption (the quota tick) "never claims more than the amount by which a queue exceeds its lowered maximum":
+\* victims come whole, so the claim on a queue may overshoot by less than one victim - every victim must lie below some
+\* queue with a maximum whose excess (usage net of what is already being preempted) is larger than what this tick claims
+\* there without its largest victim.  (Order free: the releases of one tick are announced per application.)
+C08_QuotaClaim == (Step /\ E.op = "quotaTick" /\ Len(PreemptRel) > 0) =>
+      LET rels == PreemptRel
+          Vic(q) == {i \in 1..Len(rels) : rels[i].app \in AppsOf(Pre) /\ q \in Ancestors(Pre, LeafOf(Pre, rels[i].app))}
+          Claimed(q, t) == LET S == Vic(q) IN IF S = {} THEN 0 ELSE Get(RSumSet(S, LAMBDA i : VictimRec(Pre, rels[i]).res), t)
+          Largest(q, t) == LET S == {Get(VictimRec(Pre, rels[i]).res, t) : i \in Vic(q)} IN IF S = {} THEN 0 ELSE CHOOSE m \in S : \A x \in S : x <= m
+          Justified(q, t) == Get(Used(Pre, q), t) - Pre.queues[q].max[t] > Claimed(q, t) - Largest(q, t) IN
+      \A i \in 1..Len(rels) : rels[i].app \in AppsOf(Pre) =>
+         \E q \in Ancestors(Pre, LeafOf(Pre, rels[i].app)) :
+            q # "root" /\ Pre.queues[q].hasMax /\ \E t \in DOMAIN Pre.queues[q].max \cap DOMAIN VictimRec(Pre, rels[i]).res : Justified(q, t)
 \* no victim => nothing marked, nothing tracked as preempting
 C08_NoEffectNoMark == (Step /\ Len(PreemptRel) = 0 /\ E.op = "schedule") =>
       /\ \A q \in QueuesOf(Pre) \cap QueuesOf(Post) : \A t \in DOMAIN Post.queues[q].preempting : Post.queues[q].preempting[t] <= Get(Pre.queues[q].preempting, t)
@@ -633,7 +646,7 @@ All == /\ KFAll
        /\ Chk("C05_UserUsage", C05_UserUsage) /\ Chk("C05_GroupUsage", C05_GroupUsage) /\ Chk("C05_NoGhostUser", C05_NoGhostUser) /\ Chk("C05_Step", C05_Step) /\ Chk("C05_TrackerApps", C05_TrackerApps)
        /\ Chk("C06_Counts", C06_Counts) /\ Chk("C06_ReplaceStep", C06_ReplaceStep) /\ Chk("C06_ConfirmStep", C06_ConfirmStep) /\ Chk("C06_TimeoutStep", C06_TimeoutStep)
        /\ Chk("C07_Victims", C07_Victims) /\ Chk("C07_Asker", C07_Asker) /\ Chk("C07_QueueRules", C07_QueueRules)
-       /\ Chk("C08_AskUnder", C08_AskUnder) /\ Chk("C08_VictimOver", C08_VictimOver) /\ Chk("C08_Covers", C08_Covers) /\ Chk("C08_NoEffectNoMark", C08_NoEffectNoMark)
+       /\ Chk("C08_AskUnder", C08_AskUnder) /\ Chk("C08_VictimOver", C08_VictimOver) /\ Chk("C08_Covers", C08_Covers) /\ Chk("C08_NoEffectNoMark", C08_NoEffectNoMark) /\ Chk("C08_QuotaClaim", C08_QuotaClaim)
        /\ Chk("C09_Views", C09_Views) /\ Chk("C09_Step", C09_Step) /\ Chk("C09_Released", C09_Released)
        /\ Chk("C10_Transitions", C10_Transitions) /\ Chk("C10_MsgStates", C10_MsgStates) /\ Chk("C10_CompletedClean", C10_CompletedClean) /\ Chk("C10_Idle", C10_Idle) /\ Chk("C10_CompletingHoldsNoReal", C10_CompletingHoldsNoReal) /\ Chk("C10_CompletedHeldNothing", C10_CompletedHeldNothing)
        /\ Chk("C10_LiveHaveQueue", C10_LiveHaveQueue) /\ Chk("C10_StateTimer", C10_StateTimer) /\ Chk("C10_NoAskAfterTerm", C10_NoAskAfterTerm)
